@@ -377,7 +377,7 @@ From Interval Require Import Tactic.
 
 Ltac lsrank_row :=
   split;
-  cbv [interp_off interp_terms fold_right fst snd Q2R Qnum Qden gram_eps]; interval.
+  cbv [interp_off interp_terms fold_right fst snd Q2R Qnum Qden gram_eps]; interval with (i_prec 60).
 
 (* evaluate the exact radicals (signs, rational squares) and the symbolic Gram rows by vm_compute,
    then certify every row with interval arithmetic *)
